@@ -42,6 +42,8 @@ func c14Run(c c14Case) error {
 		b, _ := json.Marshal(c)
 		_ = os.WriteFile(filepath.Join(w, fmt.Sprintf("workload-%d.json", ev.Cfg.Shard)), b, 0o644)
 	}
+	spareCap = 4
+	defer func() { spareCap = 0 }()
 	old := runtime.GOMAXPROCS(c.Procs)
 	defer runtime.GOMAXPROCS(old)
 	cr := toRecipe(c.Char)
